@@ -3,7 +3,8 @@ REAL = ("real: whole ChaiScript (parser, optimizer, evaluator, dispatch, stdlib,
         "std::recursive_mutex under the H1 wrappers, real OS threads, real files in a private directory. "
         "simulated: the choice of which thread runs at every lock acquire/release, operation boundary, callback and file call "
         "(seeded scheduler); read()/fopen() pass through a fault layer; callbacks throw on command. "
-        "not exercised: dlopen modules, script async/future, CHAISCRIPT_NO_THREADS builds.")
+        "binary extension modules (C15): a real shared object built per flavour, loaded with dlopen through load_module. "
+        "not exercised: script-level load_module, script async/future, CHAISCRIPT_NO_THREADS builds.")
 
 COMMON_ASSUME = [
     "sampling, not proof: a clean batch is evidence over the seeds, schedules and fault points that were run",
@@ -33,7 +34,7 @@ PROPS = {
         real_vs_stub=REAL,
         assumptions=COMMON_ASSUME + ["TSan keeps a bounded per-word access history (false negatives possible for very old accesses, never false positives)"],
         expected_probes=["probe_actor_blocked_on_mutex", "probe_lin_history_with_overlapping_ops", "probe_multiple_use_calls", "probe_multiple_failing_use_calls",
-                         "probe_engine_created_by_a_thread_that_ended"],
+                         "probe_engine_created_by_a_thread_that_ended", "probe_callback_invoked_by_another_thread_than_its_maker"],
         **two(40, 420,
               {"tsan": {"workers": 8}, "asan": {"workers": 8}},
               {"tsan": {"workers": 8}, "asan": {"workers": 6}, "plain": {"workers": 2}}),
@@ -74,14 +75,14 @@ PROPS = {
         level="exploration",
         rule=("fixed matrix, executed completely in both tiers: file length 0..8 x {no BOM, BOM, partial BOM} x {no fault, 1-byte short reads, "
               "EINTR} x {eval_file, use} = 162 cases; then seeded random histories of <=12/16 operations (write/delete files, eval_file and "
-              "use from C++ and from script) over <=4 file names in <=3 directories with permuted search paths, bodies with BOM / double BOM / "
+              "use from C++ and from script, get_state / set_state between them) over <=4 file names in <=3 directories with permuted search paths, bodies with BOM / double BOM / "
               "CRLF / shebang / trailing NULs / nested and cyclic use() / syntax errors, with per-operation short reads, EINTR and failing opens "
               "injected by the simulated file layer. distinct = hash of the operation list and search path; non-trivial = at least one file "
               "API operation. Oracle: twin engine evaluating the same bytes with eval(), driven by a model of search path + used-file set."),
         real_vs_stub=REAL + " file layer: fopen/fopen64/read of files under the run directory are interposed (faults); the files themselves are real.",
         assumptions=COMMON_ASSUME + ["hard I/O errors (EIO, ENOSPC) are not injected: the property says nothing about them",
                                      "a used file counts as used from the start of its evaluation and stops counting if that evaluation fails (mirrors the engine after the fix)"],
-        expected_probes=["fault_short_read", "fault_eintr", "fault_open_fail", "probe_file_shorter_than_bom", "probe_file_not_found", "probe_lookup_by_absolute_name"],
+        expected_probes=["fault_short_read", "fault_eintr", "fault_open_fail", "probe_file_shorter_than_bom", "probe_file_not_found", "probe_lookup_by_absolute_name", "fault_state_restored_between_file_operations"],
         **two(30, 300,
               {"plain": {"workers": 8, "fixed": True}, "asan": {"workers": 8, "fixed": True}},
               {"plain": {"workers": 8, "fixed": True}, "asan": {"workers": 8, "fixed": True}}),
@@ -91,9 +92,10 @@ PROPS = {
         rule=("one plan = one generated nest of frames (def, lambda, method, bind, for_each/map callback, attribute-held function, C++ "
               "std::function trampoline, guarded overload behind a rejecting guard, typed overload behind overloads of other arity/type), wrappers (block, if, for, while, switch, ranged for) and <=3 try statements with 0..3 typed/untyped "
               "catch clauses and optional finally (catch/finally bodies may throw themselves). EVERY leaf of the nest in turn is the throw site "
-              "x EVERY thrown kind (20: script int/string/bool/double/object/runtime_error, failed dispatch, five C++ throws from a registered function, "
+              "x EVERY thrown kind (21: script int/string/bool/double/object/runtime_error, a C++ object obtained from a factory and thrown by script, failed dispatch, five C++ throws from a registered function, "
               "errors and throws inside nested script-level eval(string)/eval(parse(string)), a throwing guard, a call all guards reject) x {no "
-              "exception_specification, <int,string,bool,double>} (specification only for script-thrown values), each on a "
+              "exception_specification, <int,string,bool,double>} (specification only for script-thrown values), each on a fresh engine; the thrown "
+              "C++ object additionally with its type NAME registered only between two calls of the nest as a function; each on a "
               "fresh engine. evaluations = individual executions; each (nest, site, kind, spec) is a distinct non-trivial case. Oracle: "
               "reference interpreter of try/catch/finally (DESIGN.md appendix B) predicting the exact t() trace and how the exception leaves eval."),
         real_vs_stub=REAL,
@@ -102,7 +104,7 @@ PROPS = {
                                      "the grammar has no guarded catch clauses (the 3-child branch of handle_exception is unreachable from parsed code)"],
         expected_probes=["probe_no_clause_matched", "probe_try_finally_without_catch", "probe_catch_block_threw", "probe_finally_ran_while_unwinding",
                          "probe_earlier_clause_skipped", "probe_unrepresentable_bypassed_clauses", "probe_caught_typed", "probe_caught_object_thrown_again",
-                         "probe_caught_without_variable", "fault_throw_nested_eval_parse_error", "fault_throw_guard_throws"],
+                         "probe_caught_without_variable", "fault_throw_nested_eval_parse_error", "fault_throw_guard_throws", "probe_type_name_registered_between_two_calls"],
         **two(40, 420,
               {"plain": {"workers": 10}, "asan": {"workers": 6}},
               {"plain": {"workers": 10}, "asan": {"workers": 6}}),
@@ -110,16 +112,17 @@ PROPS = {
     "C15": dict(
         level="exploration",
         rule=("one run = a history of <=30/40 operations {def function / overload, global, class, add type, add C++ function, use(file), "
-              "two-definition eval aborted by a throwing call, get_state, set_state(any earlier snapshot), local declaration} in plan order but "
+              "load_module of a binary extension module, two-definition eval aborted by a throwing call, get_state, set_state(any earlier snapshot), "
+              "local declaration} in plan order but "
               "executed by 1..3 actor threads, plus background evaluations that run concurrently with the chain (e.g. while set_state removes the "
               "function they call), interleaved by the seeded scheduler. distinct = hash of the operation list x interleaving; non-trivial = at "
-              "least one set_state executed. Oracle: dictionary model with deep-copied snapshots, compared through ~35 probes after EVERY "
-              "chain operation."),
+              "least one set_state executed. Oracle: dictionary model with deep-copied snapshots, compared through ~50 probes after EVERY "
+              "chain operation, each function and global also through long-lived script functions defined before the first snapshot."),
         real_vs_stub=REAL,
-        assumptions=COMMON_ASSUME + ["loadable modules are not exercised (active_loaded_modules stays empty)",
+        assumptions=COMMON_ASSUME + ["one conversion-free loadable module is exercised; a module that registers a conversion is known finding C15-K1 and only replayed",
                                      "globals are created, never mutated after creation: a snapshot shares Boxed_Value data with the live table by design, so only presence and identity are compared",
                                      "user conversions are documented as not part of State and are not generated"],
-        expected_probes=["fault_state_restore", "probe_restored_older_than_latest_snapshot", "probe_background_eval_overlapped_chain_op", "fault_throw_mid_eval", "probe_background_use_overlapped_chain_op", "probe_two_part_file_checked", "probe_background_type_registration"],
+        expected_probes=["fault_state_restore", "probe_restored_older_than_latest_snapshot", "probe_background_eval_overlapped_chain_op", "fault_throw_mid_eval", "probe_background_use_overlapped_chain_op", "probe_two_part_file_checked", "probe_background_type_registration", "probe_binary_module_loaded"],
         **two(40, 420,
               {"asan": {"workers": 8}, "plain": {"workers": 4}, "tsan": {"workers": 4}},
               {"asan": {"workers": 8}, "plain": {"workers": 4}, "tsan": {"workers": 4}}),
